@@ -348,6 +348,34 @@ func genFuzzCase(r *gen.Rand, id int, corpus fuzzCorpus) fuzzCase {
 	return c
 }
 
+// runFuzzCaseAlone runs one case in a worker process of its own.
+func runFuzzCaseAlone(c fuzzCase, workdir string) (fuzzResult, bool) {
+	in := filepath.Join(workdir, fmt.Sprintf("fuzz-alone-%d.json", c.ID))
+	out := filepath.Join(workdir, fmt.Sprintf("fuzz-alone-%d.jsonl", c.ID))
+	js, _ := json.Marshal([]fuzzCase{c})
+	os.WriteFile(in, js, 0644)
+	defer os.Remove(in)
+	defer os.Remove(out)
+	self, _ := os.Executable()
+	cmd := exec.Command("bash", "-c", fmt.Sprintf("ulimit -v 6000000; exec timeout -k 5 100 %q c16-worker %q %q", self, in, out))
+	cmd.Env = append(os.Environ(), "GOMEMLIMIT=2500MiB", "GOMAXPROCS=4")
+	cmd.CombinedOutput()
+	f, err := os.Open(out)
+	if err != nil {
+		return fuzzResult{}, false
+	}
+	defer f.Close()
+	sc := bufio.NewScanner(f)
+	sc.Buffer(make([]byte, 1<<20), 1<<26)
+	for sc.Scan() {
+		var r fuzzResult
+		if json.Unmarshal(sc.Bytes(), &r) == nil && !r.Started {
+			return r, true
+		}
+	}
+	return fuzzResult{}, false
+}
+
 func runFuzzBatch(cases []fuzzCase, workdir string, rep *Report) {
 	remaining := cases
 	round := 0
@@ -429,6 +457,16 @@ func runFuzzBatch(cases []fuzzCase, workdir string, rep *Report) {
 					sig = ":css-deep-parens"
 				}
 			}
+			// a slow or hanging case is measured again, alone, in a fresh worker (no garbage of earlier cases to
+			// collect, no neighbours): it counts only if it is slow both times
+			if r.Status == "hang" || (r.Status != "panic" && r.Status != "panic-message" && r.Millis > 5000) {
+				if r2, ok := runFuzzCaseAlone(c, workdir); ok {
+					rep.stat("slow-case-measured-again")
+					if r2.Status != "hang" && (r.Status == "hang" || r2.Millis < r.Millis) {
+						r = r2
+					}
+				}
+			}
 			switch r.Status {
 			case "panic":
 				rep.violate("c16/panic", "a Go panic escaped: "+r.Detail, c)
@@ -454,7 +492,7 @@ func runFuzzBatch(cases []fuzzCase, workdir string, rep *Report) {
 
 func init() {
 	searches["c16-fuzz"] = func(r *gen.Rand, count int, workdir string, rep *Report) {
-		rep.Rule = "byte strings made by 1-4 structure-aware mutations (bit flips, slice deletion/duplication, token insertion from a 170-token dictionary incl. NUL, invalid UTF-8, line separators, unterminated comments/templates, huge numbers and escapes; truncation; splicing of two seeds; nesting 50-12000 deep of 23 bracket kinds incl. CSS nesting and :is(); runs of one byte up to 30000; source-map comments with malformed and sectioned payloads) of every Go string literal in the repository's js/ts/css/json parser, lexer and printer tests; x loaders {js,jsx,ts,tsx,css,local-css,json} x 18 JS / 8 CSS option sets as transforms, and as bundles next to mutated package.json/tsconfig.json/dependencies. Each case runs in a worker process (6 GB address space; 12 s of CPU time or 60 s of wall clock per case); violations: escaped panic, reported internal error/recovered panic, hang, dead worker, > 5 s (the smaller of wall clock and CPU time, so that machine load does not count). non-trivial = the case completed with ordinary output or diagnostics"
+		rep.Rule = "byte strings made by 1-4 structure-aware mutations (bit flips, slice deletion/duplication, token insertion from a 170-token dictionary incl. NUL, invalid UTF-8, line separators, unterminated comments/templates, huge numbers and escapes; truncation; splicing of two seeds; nesting 50-12000 deep of 23 bracket kinds incl. CSS nesting and :is(); runs of one byte up to 30000; source-map comments with malformed and sectioned payloads) of every Go string literal in the repository's js/ts/css/json parser, lexer and printer tests; x loaders {js,jsx,ts,tsx,css,local-css,json} x 18 JS / 8 CSS option sets as transforms, and as bundles next to mutated package.json/tsconfig.json/dependencies. Each case runs in a worker process (6 GB address space; 12 s of CPU time or 60 s of wall clock per case); violations: escaped panic, reported internal error/recovered panic, hang, dead worker, > 5 s (the smaller of wall clock and CPU time; a slow or hanging case is measured a second time alone in a fresh worker and counts only if slow both times, so that machine load and the garbage of earlier cases do not count). non-trivial = the case completed with ordinary output or diagnostics"
 		os.MkdirAll(workdir, 0755)
 		corpus := loadCorpus()
 		rep.Distribution["corpus:js"] = len(corpus.js)
